@@ -11,7 +11,7 @@ PROPERTY = 'C12'
 LEVEL = 'fault_enumeration'
 RULE = ('A real destination agent (key store: right key / wrong key / no key; accept_after_verify on or off) receives a '
         'bundle built by the independent reference source that carries one or two security blocks (BIB on the payload, on '
-        'an extension block or on both in either target order, BCB on the payload or on both) each of which is either valid or malformed in exactly one way drawn from: '
+        'an extension block or on both in either target order, BCB on the payload or on both; their own block processing control flags drawn from {0, discard-block, delete-bundle, report, replicate}) each of which is either valid or malformed in exactly one way drawn from: '
         'unknown key id, altered MAC, first / last target altered after the operation, target altered while the original content is attached inside the COSE message, unknown security context id, target number absent from the bundle, duplicate '
         'parameter ids, duplicate result ids, two results / zero results for a target, fewer results than targets, '
         'parameters flag clear with a parameter list present, additional protected/unprotected header maps with a '
@@ -43,6 +43,8 @@ LAYERED = ['bib+bcb', 'bib+bcb-rfc']
 TARGETS = {'bib-payload': [1], 'bib-ext': [2], 'bcb-payload': [1], 'bib-multi': [2, 1], 'bib-multi-r': [1, 2],
            'bcb-multi': [2, 1], 'bcb-multi-r': [1, 2]}
 KEYSTORES = ['right', 'wrong', 'none']
+# 0x10 discard the block / 0x04 delete the bundle / 0x02 report if the block cannot be processed, 0x01 replicate in fragments
+SECFLAGS = [0, 0, 0x10, 0x04, 0x12, 0x01]
 
 
 def prepare():
@@ -66,6 +68,8 @@ def strategy(tier):
         'keys': st.sampled_from(KEYSTORES), 'accept': st.booleans(),
         'plen': st.sampled_from([0, 1, 20, 300]), 'seed': st.integers(0, 99),
         'pcrc': st.sampled_from([0, 1, 2]), 'bcrc': st.sampled_from([0, 1, 2]),
+        # block processing control flags of the security blocks themselves (set by the security source)
+        'secflags': st.sampled_from(SECFLAGS),
     })
 
 
@@ -73,6 +77,9 @@ def enumerate_cases(tier):
     base = {'plen': 9, 'seed': 1, 'pcrc': 1, 'bcrc': 0}
     for blk, mal, keys, accept in itertools.product(BLOCKS, MALFORMATIONS, KEYSTORES, (False, True)):
         yield dict(base, blocks=[[blk, mal]], keys=keys, accept=accept)
+        if keys == 'right':
+            for secflags in (0x10, 0x04):
+                yield dict(base, blocks=[[blk, mal]], keys=keys, accept=accept, secflags=secflags)
     for kind, mal, keys, accept in itertools.product(LAYERED, ('none', 'alter-target-0', 'wrong-kid'), KEYSTORES, (False, True)):
         yield dict(base, blocks=[[kind, mal]], keys=keys, accept=accept)
     pairs = [('bib-ext', 'bib-payload'), ('bib-ext', 'bcb-payload'), ('bib-payload', 'bib-ext'), ('bcb-payload', 'bib-ext')]
@@ -222,6 +229,8 @@ def build(case):
             kid = b'k-mac-1' if sec_type == 11 else b'k-enc-1'
             kwargs['addl_protected'] = cb.enc({4: kid})
             kwargs['addl_unprotected'] = cb.enc({4: kid})
+        if case.get('secflags'):
+            kwargs['sec_flags'] = case['secflags'] | (1 if sec_type == 12 else 0)
         if sec_type == 11:
             bundle = bu.ref_add_bib(bundle, targets, 'k-mac-1', 5, scope, **kwargs)
             if mal == 'no-params-default-scope':
